@@ -22,6 +22,8 @@ def caller_default(o):
     """The documented way of extending the encoding: handle your own type, then defer to eliot's function."""
     if isinstance(o, V.Custom):
         return {"x": o.x}
+    if isinstance(o, V.Encoded):
+        return o.enc                     # may be None or falsy: that IS the encoding
     return EJ.json_default(o)
 
 
@@ -30,6 +32,8 @@ class CallerEncoder(EJ.EliotJSONEncoder):
     def default(self, o):
         if isinstance(o, V.Custom):
             return {"x": o.x}
+        if isinstance(o, V.Encoded):
+            return o.enc
         return EJ.EliotJSONEncoder.default(self, o)
 
 
